@@ -355,6 +355,15 @@ fn format_expression_internal(
             }
         }
         Expression::BinaryOperator { lhs, binop, rhs } => {
+            // A single line comment after the left operand or after the operator would comment out the
+            // rest of the expression if it stayed on the same line: hang the expression instead
+            if lhs.has_trailing_comments(CommentSearch::Single)
+                || binop.token().has_trailing_comments(CommentSearch::Single)
+            {
+                let hanging_shape = shape.with_indent(shape.indent().add_indent_level(1));
+                return format_hanging_expression_(ctx, expression, hanging_shape, context, None);
+            }
+
             let context = if let BinOp::Caret(_) = binop {
                 ExpressionContext::BinaryLHSExponent
             } else {
